@@ -1,7 +1,8 @@
 (* C28 / C29: the structural invariant of the abstract-node B-tree.  DEFINITIONS ONLY.
    bounded h lo hi t: t has uniform height h (every leaf at depth h), every leaf's keys are strictly
    increasing and lie in [lo, hi), its slot array and cell area fit the page without overlapping
-   (header + slots <= free_end, free_end + live cell bytes <= page size), the separators of every
+   (header + slots <= free_end, free_end + live cell bytes <= page size; an empty leaf has its whole
+   cell area free), the separators of every
    interior page are strictly increasing, lie strictly inside (lo, hi), bound the key ranges of the
    children left and right of them, and fit the page. *)
 From Coq Require Import ZArith List Bool Sorting.Sorted.
@@ -25,7 +26,8 @@ Definition cells_sorted (cs : list entry) : Prop := StronglySorted (fun a b : en
 Definition cells_in (lo hi : option key) (cs : list entry) : Prop :=
   Forall (fun c : entry => lo_ok lo (fst c) /\ hi_ok hi (fst c)) cs.
 Definition leaf_sizes (l : leaf) : Prop :=
-  LEAF_START + SLOT * lcount V l <= lfe l /\ lfe l + sumz (map (csize V vlen) (lcells l)) <= PAGE /\ 0 <= lfrag l <= 255.
+  LEAF_START + SLOT * lcount V l <= lfe l /\ lfe l + sumz (map (csize V vlen) (lcells l)) <= PAGE /\ 0 <= lfrag l <= 255
+  /\ (lcells l = [] -> lfe l = PAGE).
 Definition leaf_ok (lo hi : option key) (l : leaf) : Prop :=
   cells_sorted (lcells l) /\ cells_in lo hi (lcells l) /\ leaf_sizes l.
 
